@@ -51,7 +51,7 @@ theorem PInv.wakeWaiters {w : World} (hp : PInv ex fr w) (p : Pid) (sig : Int) :
            ap := fun x => by rw [hpa]; exact hp.ap x,
            ae := fun x => by rw [hea]; exact hp.ae x,
            ar := fun x hx => by rw [hpa, hea]; rw [(haw x).2.1] at hx; exact hp.ar x hx,
-           fb := fun x hx => by rw [hpa, hea]; rw [(haw x).2.2] at hx; exact hp.fb x hx,
+           fb := fun x hxx hx => by rw [hpa, hea]; rw [(haw x).2.2] at hx; exact hp.fb x hxx hx,
            w1 := fun x q hq hx => by rw [(haw q).1]; exact hp.w1 x q (hwt x q hq).1 hx,
            wn := ?_, e1 := fun h l q hm hq hx => by rw [(haw q).1]; exact hp.e1 h l q hm hq hx,
            en := hp.en, op := ?_, oe := ?_, up := ?_, ue := ?_ }
@@ -100,5 +100,94 @@ theorem PInv.wakeWaiters {w : World} (hp : PInv ex fr w) (p : Pid) (sig : Int) :
     · rcases hb with hb | hb
       · exact absurd ((hnew b hb).1.symm.trans hba) hne
       · exact hp.ue a ha b hb haa hba hbb x hbx hx
+
+/-- the world in which `p` is suspended in `wait_process q` -/
+def waitProcWorld (w : World) (p q : Pid) : World :=
+  (block ((addAwait w p (.proc q)).modProc q fun y => { y with waiters := p :: y.waiters }) p (.waitProc q)).1
+
+theorem waitProcWorld_proc (w : World) (p q x : Pid) (hp : p < w.procs.size) (hq : q < w.procs.size) :
+    ((waitProcWorld w p q).proc x).awaits = (if x = p then .proc q :: (w.proc x).awaits else (w.proc x).awaits) ∧
+    ((waitProcWorld w p q).proc x).waiters = (if x = q then p :: (w.proc x).waiters else (w.proc x).waiters) ∧
+    ((waitProcWorld w p q).proc x).blocked = (if x = p then some (.waitProc q) else (w.proc x).blocked) ∧
+    ((waitProcWorld w p q).proc x).status = (w.proc x).status := by
+  unfold waitProcWorld block addAwait
+  simp only [modProc_proc, modProc_procs_size, hp, hq, and_true]
+  by_cases h1 : x = p <;> by_cases h2 : x = q <;> simp [h1, h2]
+  all_goals (try subst h1) <;> (try subst h2) <;> simp_all
+
+theorem lt_of_running {w : World} {p : Pid} (hr : (w.proc p).status = .running) : p < w.procs.size := by
+  rcases Nat.lt_or_ge p w.procs.size with h | h
+  · exact h
+  · rw [proc_oob w h] at hr; cases hr
+
+/-- `wait_process q` by a running process that is registered nowhere: it registers both ways and suspends -/
+theorem PInv.cmd_waitProc {w : World} (hp : PInv ex fr w) {p q : Pid} (hfr : fr p = none)
+    (hr : (w.proc p).status = .running) (hq : q < w.procs.size) (hxp : ¬ ex p) :
+    PInv ex (setFrame fr p (some (.waitProc q))) (waitProcWorld w p q) := by
+  have hpl := lt_of_running hr
+  have hnil := hp.nil_of_fr_none hfr
+  have hf := fun x => waitProcWorld_proc w p q x hpl hq
+  have hpa : ∀ x, procAw (waitProcWorld w p q) x = if x = p then [.proc q] else procAw w x := by
+    intro x; unfold procAw; rw [(hf x).1]
+    split
+    · rename_i h; subst h
+      have := hnil.1; unfold procAw at this
+      simp [List.filter_cons, isProcA, this]
+    · rfl
+  have hea : ∀ x, evAw (waitProcWorld w p q) x = evAw w x := by
+    intro x; unfold evAw; rw [(hf x).1]
+    split
+    · simp [List.filter_cons, isEventA]
+    · rfl
+  have hsub : ∀ x a, a ∈ (w.proc x).awaits → a ∈ ((waitProcWorld w p q).proc x).awaits := by
+    intro x a ha; rw [(hf x).1]; split
+    · exact List.mem_cons_of_mem _ ha
+    · exact ha
+  have hnop : ∀ a, Await.proc a ∉ (w.proc p).awaits := by
+    intro a ha; rw [mem_awaits_proc, hnil.1] at ha; cases ha
+  refine { ei := hp.ei, ap := ?_, ae := ?_, ar := ?_, fb := ?_, w1 := ?_, wn := ?_, e1 := ?_, en := hp.en,
+           op := ?_, oe := ?_, up := hp.up, ue := hp.ue }
+  · intro x; rw [hpa]
+    by_cases hx : x = p
+    · subst hx; right; exact ⟨q, setFrame_self _ _ _, by simp⟩
+    · rw [if_neg hx, setFrame_ne _ _ hx]; exact hp.ap x
+  · intro x; rw [hea]
+    by_cases hx : x = p
+    · subst hx; exact Or.inl hnil.2
+    · rw [setFrame_ne _ _ hx]; exact hp.ae x
+  · intro x hx
+    rw [(hf x).2.2.2] at hx
+    have hxp' : x ≠ p := fun h => hx (h ▸ hr)
+    rw [hpa, hea, if_neg hxp']; exact hp.ar x hx
+  · intro x hxx hx
+    by_cases hxp' : x = p
+    · subst hxp'; rw [(hf x).2.2.1, if_pos rfl, setFrame_self] at hx; exact absurd rfl hx
+    · rw [(hf x).2.2.1, if_neg hxp', setFrame_ne _ _ hxp'] at hx
+      rw [hpa, hea, if_neg hxp']; exact hp.fb x hxx hx
+  · intro x y hy hxy
+    rw [(hf x).2.1] at hy
+    split at hy
+    · rename_i hxq; subst hxq
+      rcases List.mem_cons.1 hy with rfl | hy
+      · rw [(hf y).1, if_pos rfl]; exact List.mem_cons_self
+      · exact hsub y _ (hp.w1 x y hy hxy)
+    · exact hsub y _ (hp.w1 x y hy hxy)
+  · intro x; rw [(hf x).2.1]; split
+    · rename_i hxq; subst hxq
+      refine List.nodup_cons.2 ⟨fun hmem => hnop x (hp.w1 x p hmem hxp), hp.wn x⟩
+    · exact hp.wn x
+  · intro h l y hm hy hxy; exact hsub y _ (hp.e1 h l y hm hy hxy)
+  · intro e he ha x hb hx
+    obtain ⟨q', h1, h2⟩ := hp.op e he ha x hb hx
+    have hxp' : x ≠ p := fun h => hnop q' (h ▸ h1)
+    refine ⟨q', hsub x _ h1, ?_⟩
+    rw [(hf q').2.1]; split
+    · intro hmem; rcases List.mem_cons.1 hmem with h | h
+      · exact hxp' h
+      · exact h2 h
+    · exact h2
+  · intro e he ha x hb hx
+    obtain ⟨h, h1, h2⟩ := hp.oe e he ha x hb hx
+    exact ⟨h, hsub x _ h1, h2⟩
 
 end CimbaModel.Sim.S3
